@@ -293,6 +293,55 @@ class PeerBase:
     def since(self, seq):
         return [r['pkt'] for r in self.rx if r['seq'] > seq]
 
+    # -- several packets in ONE engine.io polling payload --------------------
+    # (an HTTP POST to the session: engine.io handles the packets of a
+    # payload one after the other without returning to the event loop in
+    # between - on the websocket transport every frame is a loop iteration
+    # of its own.  engine.io accepts a POST for any live session.)
+    def _payload_body(self, frames):
+        import base64
+        parts = []
+        for f in frames:
+            if isinstance(f, (bytes, bytearray)):
+                parts.append('b' + base64.b64encode(bytes(f)).decode('ascii'))
+            else:
+                parts.append('4' + f)
+        return '\x1e'.join(parts).encode('utf-8')
+
+    def _post_environ(self, body, wsgi_input):
+        return {'REQUEST_METHOD': 'POST', 'PATH_INFO': '/socket.io/',
+                'QUERY_STRING': 'transport=polling&EIO=4&sid=%s'
+                % self.eio_sid, 'CONTENT_LENGTH': str(len(body)),
+                'SERVER_NAME': 'sim', 'wsgi.input': wsgi_input}
+
+    def post_pkts(self, pkts):
+        """pkts: list of (type, nsp, id, data) sent in one payload."""
+        frames = []
+        for type, nsp, id, data in pkts:
+            if self.world.msgpack:
+                frames += sio.encode_msgpack(type, nsp, id, data)
+            else:
+                frames += sio.encode(type, nsp, id, data)
+            self.world.rec.add('tx', peer=self.idx,
+                               pkt=sio.Pkt(type, nsp, id, data).key())
+        self.post_payload(frames)
+
+
+class _AsyncBody:
+    def __init__(self, body):
+        self.body = body
+
+    async def read(self, n=-1):
+        return self.body
+
+
+class _SyncBody:
+    def __init__(self, body):
+        self.body = body
+
+    def read(self, n=-1):
+        return self.body
+
 
 LAST_RECS = []     # recorders of closed worlds (differential checks read it)
 
@@ -349,6 +398,26 @@ class APeer(PeerBase):
     def _post(self, data):
         if self.conn is not None:
             self.conn.post('c2s', data)
+
+    def post_payload(self, frames):
+        conn = self.conn
+        if conn is None or conn.severed or conn.told['client']:
+            return
+        body = self._payload_body(frames)
+        loop = self.world.loop
+        eio = self.world.servers[self.server_name].eio
+        at = max(conn.last['c2s'], loop.time() + self.world.net.latency())
+        conn.last['c2s'] = at
+        self.world.rec.count('net.polling_payload')
+
+        async def do_post():
+            if conn.severed or conn.told['client']:
+                return
+            r = await eio.handle_request(
+                self._post_environ(body, _AsyncBody(body)))
+            self.world.rec.add('post_done', peer=self.idx,
+                               status=r[0] if isinstance(r, tuple) else r)
+        loop.call_at(at, lambda: loop.create_task(do_post()))
 
     def sever(self, tell_server=0.0):
         if self.conn is not None:
@@ -604,6 +673,27 @@ class TPeer(PeerBase):
     def _post(self, data):
         if self.conn is not None:
             self.conn.post('c2s', data)
+
+    def post_payload(self, frames):
+        conn = self.conn
+        if conn is None or conn.severed or conn.told['client']:
+            return
+        body = self._payload_body(frames)
+        k = self.world.kernel
+        eio = self.world.servers[self.server_name].eio
+        at = max(conn.last['c2s'], k.now + self.world.net.latency())
+        conn.last['c2s'] = at
+        self.world.rec.count('net.polling_payload')
+
+        def do_post():
+            if conn.severed or conn.told['client']:
+                return
+            status = []
+            eio.handle_request(self._post_environ(body, _SyncBody(body)),
+                               lambda st, headers: status.append(st))
+            self.world.rec.add('post_done', peer=self.idx,
+                               status=status[:1])
+        k.call_at(at, lambda: k.spawn(do_post))
 
     def sever(self, tell_server=0.0):
         if self.conn is not None:
